@@ -5,7 +5,10 @@ Differential validation of the op table (stage 2, real torch; run with /venv/bin
 usage: /venv/bin/python tools/optable_run.py <cases.json> [<result.json>]
 
 Replays every instance written by tools/optable_cases.py with real torch on the same numbers and compares
-raises / shape / dtype / values / view-ness with the symbolic prediction.  Prints one line
+raises / shape / dtype / values / view-ness with the symbolic prediction (and, when the prediction carries them: the integer
+payload "ivalues" -- exact integers or the set of integers the symbolic side allows --, the library of the result "lib", tuple
+results element by element, "claims" such as perm_matrix).  Nested calls ({"call": ...} arguments) are replayed recursively.
+Prints one line
     OPTABLE-RESULT {json}
 and always exits 0.
 """
@@ -77,7 +80,17 @@ class Ctx(object):
                     return torch.arange(a['itensor'])
                 if a['how'] == 'tensor':
                     return torch.tensor(a['itensor'])
-                return torch.tensor(a['itensor'], dtype=torch.int64)
+                t = torch.tensor(a['itensor'], dtype=torch.int32 if a['how'] == 'manual32' else torch.int64)
+                if self.first is None:
+                    self.first = t
+                return t
+            if 'call' in a:
+                r = run_call(self, a['call'])
+                return r[a['pick']] if a.get('pick') is not None else r
+            if 'range' in a:
+                return range(a['range'])
+            if 'npdtype' in a:
+                return getattr(np, a['npdtype'])
             if 'dtype' in a:
                 return tdtype(a['dtype'])
             if 'none' in a:
@@ -123,7 +136,13 @@ def run_call(ctx, call):
             return dtname(torch.promote_types(tdtype(a0), tdtype(call['args'][1])))
         s = ctx.dec(call['args'][1])
         return dtname((torch.ones(2, dtype=tdtype(a0)) * s).dtype)
-    args = [ctx.dec(a) for a in call.get('args', [])]
+    args = []
+    for a in call.get('args', []):
+        v = ctx.dec(a)
+        if isinstance(a, dict) and a.get('star'):
+            args.extend(v)
+        else:
+            args.append(v)
     kwargs = {k: ctx.dec(v) for k, v in call.get('kwargs', {}).items()}
     if kind == 'ext':
         return resolve(name)(*args, **kwargs)
@@ -164,32 +183,100 @@ def to_nested(t):
     return t.to(torch.float64).tolist()
 
 
+def describe(res, ctx):
+    """JSON description of a real result"""
+    lib = 'torch'
+    if isinstance(res, np.ndarray):
+        lib = 'numpy'
+        res = torch.from_numpy(np.ascontiguousarray(res)) if res.size == 0 else torch.from_numpy(res)
+    if isinstance(res, torch.Tensor):
+        first = ctx.first
+        view = None
+        if first is not None and first.numel() > 0 and res.numel() > 0:
+            view = res.untyped_storage().data_ptr() == first.untyped_storage().data_ptr()
+        return {'shape': list(res.shape), 'dtype': dtname(res.dtype), 'values': to_nested(res.detach()),
+                'is_view_of_input': view, 'same_object': (res is first) if first is not None else None,
+                'contiguous': bool(res.is_contiguous()), 'lib': lib}
+    if isinstance(res, torch.Size):
+        return {'pyvalue': list(res)}
+    if isinstance(res, torch.dtype):
+        return {'pyvalue': 'dtype:' + dtname(res)}
+    if isinstance(res, np.dtype):
+        return {'pyvalue': 'dtype:' + res.name}
+    if isinstance(res, (bool, int, float, str)) or res is None:
+        return {'pyvalue': res}
+    if isinstance(res, (np.floating, np.integer, np.bool_)):
+        return {'pyvalue': res.item()}
+    if isinstance(res, (tuple, list)):
+        if res and all(isinstance(x, (torch.Tensor, np.ndarray, np.integer, np.floating)) for x in res):
+            return {'tuple': [describe(x, ctx) for x in res]}
+        return {'pyvalue': list(res)}
+    return {'pyvalue': repr(res)}
+
+
 def observe(inst):
     ctx = Ctx(inst)
     try:
         res = run_call(ctx, inst['call'])
     except Exception as e:       # noqa
         return {'raises': exc_category(e), 'message': str(e)[:160]}, None, ctx
-    if isinstance(res, np.ndarray):
-        res = torch.from_numpy(res)
-    if isinstance(res, torch.Tensor):
-        first = ctx.first
-        view = None
-        if first is not None and first.numel() > 0 and res.numel() > 0:
-            view = res.untyped_storage().data_ptr() == first.untyped_storage().data_ptr()
-        out = {'shape': list(res.shape), 'dtype': dtname(res.dtype), 'values': to_nested(res.detach()),
-               'is_view_of_input': view, 'same_object': (res is first) if first is not None else None,
-               'contiguous': bool(res.is_contiguous())}
-        return out, res, ctx
-    if isinstance(res, torch.Size):
-        return {'pyvalue': list(res)}, None, ctx
-    if isinstance(res, (bool, int, float, str)) or res is None:
-        return {'pyvalue': res}, None, ctx
-    if isinstance(res, (np.floating, np.integer)):
-        return {'pyvalue': res.item()}, None, ctx
-    if isinstance(res, (tuple, list)):
-        return {'pyvalue': list(res)}, None, ctx
-    return {'pyvalue': repr(res)}, None, ctx
+    return describe(res, ctx), res, ctx
+
+
+def _flat(x):
+    if isinstance(x, list):
+        out = []
+        for y in x:
+            out.extend(_flat(y))
+        return out
+    return [x]
+
+
+def compare_ivalues(piv, act):
+    """integer payload: every entry must equal the predicted integer / lie in the predicted set"""
+    def leaves(x):
+        if isinstance(x, list):
+            out = []
+            for y in x:
+                out.extend(leaves(y))
+            return out
+        return [x]
+    p = leaves(piv)
+    vals = act['values']
+    if act['dtype'] in COMPLEX:
+        a = []
+        for z in (np.array(vals, dtype=np.float64).reshape(-1, 2) if vals != [] else []):
+            if z[1] != 0:
+                return 'ivalues (complex entry)'
+            a.append(float(z[0]))
+    else:
+        a = [float(v) for v in _flat(vals)]
+    if len(p) != len(a):
+        return 'ivalues layout'
+    for pv, av in zip(p, a):
+        if pv is None:
+            continue
+        if av != round(av):
+            return 'ivalues (non-integer entry)'
+        ok = (int(av) in pv['in']) if isinstance(pv, dict) else (int(av) == pv)
+        if not ok:
+            return 'ivalues'
+    return None
+
+
+def check_claims(claims, act):
+    for c in claims:
+        if c == 'perm_matrix':
+            m = np.array(act['values'], dtype=np.float64)
+            if act['dtype'] in COMPLEX:
+                if m.size and np.any(m[..., 1] != 0):
+                    return 'claim perm_matrix'
+                m = m[..., 0]
+            if m.ndim != 2 or m.shape[0] != m.shape[1]:
+                return 'claim perm_matrix'
+            if not (np.all((m == 0) | (m == 1)) and np.all(m.sum(0) == 1) and np.all(m.sum(1) == 1)):
+                return 'claim perm_matrix'
+    return None
 
 
 def compare(pred, act, in_dtypes=()):
@@ -200,6 +287,21 @@ def compare(pred, act, in_dtypes=()):
         if 'raises' in pred and 'raises' in act:
             return None if pred['raises'] == act['raises'] else 'exception class'
         return 'raises vs returns'
+    if 'tuple' in pred or 'tuple' in act:
+        if 'tuple' not in pred or 'tuple' not in act:
+            return 'kind of result'
+        if len(pred['tuple']) != len(act['tuple']):
+            return 'tuple length'
+        for k, (p_, a_) in enumerate(zip(pred['tuple'], act['tuple'])):
+            r = compare(p_, a_, in_dtypes)
+            if r is not None:
+                return 'element %d: %s' % (k, r)
+        return None
+    if 'pyvalue_set' in pred:
+        if 'pyvalue' not in act:
+            return 'kind of result'
+        a = act['pyvalue']
+        return None if (isinstance(a, int) and not isinstance(a, bool) and a in pred['pyvalue_set']) else 'value'
     if 'pyvalue' in pred or 'pyvalue' in act:
         if 'pyvalue' not in pred or 'pyvalue' not in act:
             return 'kind of result'
@@ -227,6 +329,16 @@ def compare(pred, act, in_dtypes=()):
             scale = max(1.0, float(np.max(np.abs(p))))
             if not np.allclose(a, p, rtol=rtol, atol=rtol * scale):
                 return 'values'
+    if pred.get('ivalues') is not None:
+        r = compare_ivalues(pred['ivalues'], act)
+        if r is not None:
+            return r
+    if pred.get('claims'):
+        r = check_claims(pred['claims'], act)
+        if r is not None:
+            return r
+    if pred.get('lib') is not None and act.get('lib') is not None and pred['lib'] != act['lib']:
+        return 'library of the result (torch tensor vs numpy array)'
     if pred.get('is_view_of_input') is not None and act.get('is_view_of_input') is not None:
         if bool(pred['is_view_of_input']) != bool(act['is_view_of_input']):
             return 'view-ness'
@@ -244,7 +356,7 @@ def contiguity_note(pred, act):
 def outcome_kind(x):
     if 'raises' in x:
         return 'raises ' + x['raises']
-    for k in ('sym_crash', 'harness_error', 'pyvalue', 'one_of'):
+    for k in ('sym_crash', 'harness_error', 'pyvalue', 'pyvalue_set', 'tuple', 'one_of'):
         if k in x:
             return k
     return 'tensor'
@@ -263,8 +375,13 @@ def strip_values(d):
         if k == 'values':
             s = json.dumps(v)
             out[k] = v if len(s) < 160 else s[:160] + '...'
-        elif k == 'one_of':
+        elif k in ('one_of', 'tuple'):
             out[k] = [strip_values(x) for x in v]
+        elif k == 'ivalues':
+            s = json.dumps(v)
+            out[k] = v if len(s) < 300 else s[:300] + '...'
+        elif k == 'call':
+            out[k] = v
         else:
             out[k] = v
     return out
